@@ -25,7 +25,7 @@ CLAIMED = {
                   '126464, 126996, 126998); commands to 60928/126998 take effect and are read back through the ISO request path; heartbeat request limits.  Model tied to ~1000 lines of C++ by correspondence on node histories.',
              note=TB + 'Three open known findings (Command acknowledged for PGNs it cannot execute; refused command applied; malformed description accepted).  UCS-2 selection strings and cut pairs: correspondence only.',
              design='6 C09', technique='Coq proof over executable model + extracted-model/implementation correspondence'),
- 'C07': dict(ready=False, text='node_safe: for every group-function reaction satisfying an explicit contract (proved for the no-op instance and for the library model gf_lib), every cold node and EVERY operation list (arbitrary frames, DLC 0..8, '
+ 'C07': dict(text='node_safe: for every group-function reaction satisfying an explicit contract (proved for the no-op instance and for the library model gf_lib), every cold node and EVERY operation list (arbitrary frames, DLC 0..8, '
                   'polls, ticks, sends): the model never indexes Devices[]/N2kCANMsgBuf[] out of range (sticky r_oob flag), never delivers more than 223 bytes, keeps its slot and queue invariants; one poll consumes at most 20 '
                   'frames; fuelled loops are fuel-independent.  The device-list half is C18_heap_safe.  Tied to the C++ by protocol-grammar fuzz under ASan/UBSan with the library arrays relocated between inaccessible pages.',
              note=TB + 'Partial by nature: the theorem is about the abstract memory of the model; real memory safety of the C++ is evidenced by the sanitizer correspondence on the sampled histories, not proved.',
